@@ -127,3 +127,25 @@ Proof.
   apply andb_true_iff in H as [H1 H2]. apply negb_true_iff in H1. apply memN_false in H1.
   constructor; [exact H1 | apply IH; exact H2].
 Qed.
+
+(* the regenerated table gives every slice-derived attribute its pinned id text, data type and the resource category *)
+Lemma resource_rows_b :
+  forallb (fun r => match lookupN (fst r) attr_table with
+                    | Some (dt, c) => str_eqb (urn_of (fst r)) (fst (snd r)) && str_eqb (dtype_of dt) (snd (snd r))
+                                      && str_eqb (cat_of c) resource_category
+                    | None => false end) pinned_resource_rows = true.
+Proof. vm_compute. reflexivity. Qed.
+
+Lemma resource_rows k u d : In (k, (u, d)) pinned_resource_rows ->
+  urn_of k = u /\ exists dt c, lookupN k attr_table = Some (dt, c) /\ dtype_of dt = d /\ cat_of c = resource_category.
+Proof.
+  intro H. pose proof (proj1 (forallb_forall _ _) resource_rows_b _ H) as H1. cbv beta in H1. cbn [fst snd] in H1.
+  destruct (lookupN k attr_table) as [[dt c]|]; [|discriminate].
+  apply andb_true_iff in H1 as [H1 H3]. apply andb_true_iff in H1 as [H1 H2].
+  apply str_eqb_eq in H1, H2, H3. split; [exact H1|]. exists dt, c. repeat split; assumption.
+Qed.
+
+(* the pinned rows cover every key a topology collection can write *)
+Lemma resource_rows_cover_b :
+  forallb (fun k => existsb (fun r => N.eqb (fst r) k) pinned_resource_rows) (base_keys ++ map snd nstype_lut) = true.
+Proof. vm_compute. reflexivity. Qed.
